@@ -669,7 +669,11 @@ class Connection(ExportImport):
 
             # if we write an object, we don't want to check if it was read
             # while current.  This is a convenient choke point to do this.
-            self._readCurrent.pop(oid, None)
+            # (Not while the object only goes into a savepoint, which may
+            # be rolled back: _commit_savepoint() does it when the data
+            # are really stored.)
+            if self._savepoint_storage is None:
+                self._readCurrent.pop(oid, None)
             if s:
                 # savepoint
                 obj._p_changed = 0  # transition from changed to up-to-date
